@@ -352,6 +352,12 @@ def applyOp (s : State) : Op → State
   | .relay h rel st => (addRelay s h rel st).1
   | .relayTo h a => s.setRs h (insertRelayTo (s.rstate h) a)
 
+/-- the tunnels an operation may bring into the main hostmap -/
+def freshOf (s : State) : Op → List Nat
+  | .resp .. => [s.next]
+  | .fin i .. => (s.pidx.get i).toList
+  | _ => []
+
 def run (s : State) (ops : List Op) : State := ops.foldl applyOp s
 
 end Nebula.HostMap
